@@ -74,7 +74,7 @@ def _args_strategies():
     S["redshift.sortkey"] = ("redshift", "sortkey", st.fixed_dictionaries({"style": st.sampled_from(["COMPOUND", "INTERLEAVED"]), "cols": st.integers(1, 3)}))
     S["snowflake.cluster_by"] = ("snowflake", "cluster", st.fixed_dictionaries({"cols": st.integers(1, 3)}))
     S["snowflake.comment"] = ("snowflake", "comment", st.fixed_dictionaries({"text": _lit(), "sp": st.booleans()}))
-    S["snowflake.data_retention"] = ("snowflake", "retention", st.fixed_dictionaries({"n": st.integers(0, 90), "sp": st.booleans()}))
+    S["snowflake.data_retention"] = ("snowflake", "retention", st.fixed_dictionaries({"n": st.one_of(st.sampled_from([0, 1, 90]), st.integers(0, 90)), "sp": st.booleans()}))  # 0 switches Time Travel off
     S["snowflake.change_tracking"] = ("snowflake", "tracking", st.fixed_dictionaries({"v": st.sampled_from(["TRUE", "FALSE", "true", "False"]), "sp": st.booleans()}))
     S["snowflake.max_data_extension"] = ("snowflake", "maxext", st.fixed_dictionaries({"n": st.integers(0, 90), "sp": st.booleans()}))
     S["snowflake.with_tag"] = ("snowflake", "tag", st.fixed_dictionaries({
